@@ -16,6 +16,8 @@ pub enum Ev {
     OpenRst,
     OpenEos,
     BigHeaders(usize),
+    /// the same with END_STREAM on the HEADERS frame
+    BigHeadersEos(usize),
     /// the same oversized list with its block cut into k pieces (HEADERS + CONTINUATIONs), the cuts falling inside fields
     BigHeadersSplit(usize, usize),
     HeadersNoEnd,
@@ -121,12 +123,12 @@ pub fn apply_peer(t: &mut T2, w: &mut World, e: &Ev) {
             t.peer_send(&wf::headers(sid, &req, false, true));
             t.peer_send(&wf::rst_stream(sid, 8));
         }
-        Ev::BigHeaders(n) => {
+        Ev::BigHeaders(n) | Ev::BigHeadersEos(n) => {
             let sid = w.next_sid;
             w.next_sid += 2;
             let mut b = req.clone();
             b.extend(T2::block(&[("x-big", &"b".repeat(*n))]));
-            t.peer_send(&wf::headers(sid, &b, false, true));
+            t.peer_send(&wf::headers(sid, &b, matches!(e, Ev::BigHeadersEos(_)), true));
         }
         Ev::BigHeadersSplit(n, k) => {
             let sid = w.next_sid;
@@ -359,6 +361,10 @@ fn directed_runs(quick: bool, vios: &mut VioSet) -> Vec<serde_json::Value> {
         ("open-beyond-limit-writes-blocked", vec![Ev::Open], true, true),
         ("oversized-headers", vec![Ev::BigHeaders(400)], false, true),
         ("oversized-headers-writes-blocked", vec![Ev::BigHeaders(1400)], true, true),
+        // between the limit and four times the limit: answered by the endpoint itself with 431 + RST_STREAM, replies that pile up
+        // while writes are blocked unless these streams count against the concurrency limit like any other
+        ("oversized-headers-431-writes-blocked", vec![Ev::BigHeaders(400)], true, true),
+        ("oversized-headers-431-eos-writes-blocked", vec![Ev::BigHeadersEos(400)], true, true),
         ("oversized-headers-split-inside-fields", vec![Ev::BigHeadersSplit(5, 61)], false, true),
         ("oversized-headers-split-two-fields-per-piece", vec![Ev::BigHeadersSplit(6, 101)], false, true),
         ("continuation-flood", vec![Ev::ContinuationNoEnd], false, true),
